@@ -353,21 +353,21 @@ scalar, a value of that type. -/
 literals) with the reference evaluator yields a value of type `τ`, or fails with a division by zero —
 never with a type error, whatever the environment's values. -/
 theorem check_sound_partial (cfg : CheckCfg) (c : Spec.SCfg) (henv : EnvConforms cfg c.env)
-    (n n' : Node) (τ : OTy) (hfrag : inFrag n = true) (hstatic : scalarTyped cfg n = true)
+    (n n' : Node) (τ : OTy) (hfrag : inFrag n = true) (hstatic : scalarTyped cfg [] n = true)
     (h : check cfg n = .ok n' τ) (ctx : Spec.Ctx) (s : Spec.SState) :
     match (Spec.eval c ctx n' s).1 with
     | .ok v => ValOfK v τ.kind
     | .error e => e = .divzero := by
   have hs := accepted_type_is_synth cfg n n' τ h
   obtain ⟨hn', _, _, _⟩ := (check_ok_iff cfg n n' τ).1 h
-  obtain ⟨_, _, hev⟩ := frag_sound (E := fun e => e = .divzero) rfl cfg c henv n hfrag hstatic τ hs {}
+  obtain ⟨_, _, hev⟩ := frag_sound (E := fun e => e = .divzero) (P := fun _ => True) rfl cfg [] c henv n hfrag hstatic τ hs {}
   rw [hn'] at hev
-  exact hev ctx s
+  exact hev ctx trivial s
 
 /-- … and under `AsInt64` / `AsFloat64` the run's result is exactly an `int64` / a `float64`
 (`Spec.run` applies the conversion the compiler appends), under `AsBool` exactly a `bool`. -/
 theorem as_kind_exact_partial (cfg : CheckCfg) (c : Spec.SCfg) (henv : EnvConforms cfg c.env)
-    (n n' : Node) (τ : OTy) (hfrag : inFrag n = true) (hstatic : scalarTyped cfg n = true)
+    (n n' : Node) (τ : OTy) (hfrag : inFrag n = true) (hstatic : scalarTyped cfg [] n = true)
     (h : check cfg n = .ok n' τ) :
     (cfg.expect = .bool → match (Spec.run c none n').1 with
       | .ok v => ∃ b, v = .bool b | .error e => e = .divzero) ∧
@@ -378,7 +378,7 @@ theorem as_kind_exact_partial (cfg : CheckCfg) (c : Spec.SCfg) (henv : EnvConfor
   have hev := check_sound_partial cfg c henv n n' τ hfrag hstatic h [] {}
   have hk := as_kind_exact cfg n n' τ h
   have hτs : ScalarT τ := by
-    have := scalarTyped_self cfg n hstatic
+    have := scalarTyped_self cfg [] n hstatic
     rw [accepted_type_is_synth cfg n n' τ h] at this
     exact this
   refine ⟨?_, ?_, ?_⟩
@@ -426,7 +426,7 @@ example : WellTyped (cfgWith .repaired) (.binary {} "+" (ident "I") (.int {} 2))
     ¬ WellTyped (cfgWith .repaired) (.binary {} "+" (ident "I") (.str {} "a")) ∧
     Static (cfgWith .repaired) (.binary {} "+" (ident "I") (.int {} 2)) ∧
     inFrag (.binary {} "+" (ident "I") (.int {} 2)) = true ∧
-    scalarTyped (cfgWith .asIs) (.binary {} "+" (ident "I") (.int {} 2)) = true := by
+    scalarTyped (cfgWith .asIs) [] (.binary {} "+" (ident "I") (.int {} 2)) = true := by
   decide +kernel
 
 end ExprModel.C03
